@@ -15,6 +15,7 @@ The history-level statement (never two votes per view over a whole run, across c
 induction over steps; that induction is a paper argument and is stated as an assumption.
 """
 import z3
+from mirsym.core import Unmodelled
 from mirsym import models as M, env
 from props import replica_checks as RC, replica as R
 import framework as F
@@ -32,6 +33,6 @@ def run(rep, db, tier, seed):
     try:
         from props import replica_start
         replica_start.run(rep, db, tier)
-    except ImportError:
-        pass
+    except Unmodelled as u:
+        rep.add(F.Obligation('restart restores the durable snapshot (StateMachine::start)', 'inconclusive', str(u)[:600]))
     rep.extra['explanation'] = 'one-step vote-discipline, monotonicity and persist-before-send obligations on the real handler MIR for all symbolic states/inputs within the bound'
